@@ -162,7 +162,7 @@ def run_sep(ctx, order=None):
         return u
 
     it = Interp(ctx.prog, summaries={"cryocat.cryomap.read": rd,
-                                     "cryocat.ioutils.rot_angles_load": lambda it_, a, k, n, f: Unk(call("anglist", *[to_term(x) for x in a], *[to_term(v) for v in k.values()]))},
+                                     "cryocat.ioutils.rot_angles_load": lambda it_, a, k, n, f: Unk(call("anglist", *[to_term(x) for x in a]))},
                 no_inline=("cryomotl.Motl.write_out", "tmana.compute_scores_map_threshold_triangle"),
                 assume=assume_map({"scores_threshold is not None": True, "tomo_mask is not None": False, "object_id is None": False, "k == 0": False,
                                    "cluster_size is not None": False, "n_particles is not None": False, "symmetry > 1": False,
